@@ -1,6 +1,6 @@
 /-
-Union-find internals (C05), termination of the growth loop, part D: on a CLOSED graph (every
-column of weight 0 or 2: no dangling edges) the syndrome of any error has an even number of
+Union-find internals (C05), termination of the growth loop, part D: on a CLOSED multigraph (every
+column of weight 0 or 2: no dangling edges; parallel edges allowed) the syndrome of any error has an even number of
 defects in every union of connected components; hence `Support.clustering` terminates and
 `Support.decode()` is totally correct there.
 -/
@@ -85,9 +85,9 @@ theorem dot_eq_rsum : ∀ (r v : List Nat), r.length = v.length →
 
 /-! ### closed graphs -/
 
-theorem closedGraph_cols {H : Mat} (h : closedGraph H = true) (q : Nat) (hq : q < ncols H) :
+theorem closedGraph_cols {H : Mat} (h : closedMultigraph H = true) (q : Nat) (hq : q < ncols H) :
     cnt H.length (fun s => hb H s q) = 0 ∨ cnt H.length (fun s => hb H s q) = 2 := by
-  unfold closedGraph graphLike at h
+  unfold closedMultigraph multigraphLike at h
   simp only [Bool.and_eq_true, List.all_eq_true, decide_eq_true_eq, List.mem_range, bne_iff_ne] at h
   have h1 := h.1.1.2 q hq
   have h2 := h.2 q hq
@@ -95,11 +95,11 @@ theorem closedGraph_cols {H : Mat} (h : closedGraph H = true) (q : Nat) (hq : q 
 
 /-- **the syndrome of an error on a closed graph has an even number of defects in every union of
     connected components** -/
-theorem evenComponents_of_closed {H : Mat} (hC : closedGraph H = true) (v : Vec)
+theorem evenComponents_of_closed {H : Mat} (hC : closedMultigraph H = true) (v : Vec)
     (hv : v.length = ncols H) : EvenComponents H (sectorSyndrome H v) := by
-  have hG : graphLike H = true := by
-    unfold closedGraph at hC; simp only [Bool.and_eq_true] at hC; exact hC.1
-  obtain ⟨G, R⟩ := graphLike_ok hG
+  have hG : multigraphLike H = true := by
+    unfold closedMultigraph at hC; simp only [Bool.and_eq_true] at hC; exact hC.1
+  obtain ⟨G, R⟩ := multigraphLike_ok hG
   intro P hP
   -- row facts
   have hrowmem : ∀ s, s < H.length → H.getD s [] ∈ H := by
@@ -196,12 +196,12 @@ theorem evenComponents_of_closed {H : Mat} (hC : closedGraph H = true) (v : Vec)
 
 /-- **(b) the growth loop terminates** on a closed graph for the syndrome of any error, for
     every schedule, within the fuel `m·n + 1` of the model -/
-theorem clustering_terminates {H : Mat} (hC : closedGraph H = true) (v : Vec)
+theorem clustering_terminates {H : Mat} (hC : closedMultigraph H = true) (v : Vec)
     (hv : v.length = ncols H) (sched : List (List Int)) :
     (clustering H (sectorSyndrome H v) sched).terminated = true := by
-  have hG : graphLike H = true := by
-    unfold closedGraph at hC; simp only [Bool.and_eq_true] at hC; exact hC.1
-  obtain ⟨G, _⟩ := graphLike_ok hG
+  have hG : multigraphLike H = true := by
+    unfold closedMultigraph at hC; simp only [Bool.and_eq_true] at hC; exact hC.1
+  obtain ⟨G, _⟩ := multigraphLike_ok hG
   have hrange : ∀ s q, hb H s q = true → q < ncols H := fun s q h => (G.inRange s q h).2
   have := clusterLoop_terminates hrange (evenComponents_of_closed hC v hv) (growFuel H)
     (initState H (sectorSyndrome H v) sched) _ _ (GInv_init H _ sched) (BdInv_init H _ sched)
@@ -212,17 +212,17 @@ theorem clustering_terminates {H : Mat} (hC : closedGraph H = true) (v : Vec)
   unfold clustering
   exact this
 
-/-- **(c) `Support(sy, H).decode()` is totally correct on closed graphs**: for every closed
-    graph-like matrix, every error `v` and EVERY schedule of set iteration orders, the run
+/-- **(c) `Support(sy, H).decode()` is totally correct on closed multigraphs**: for every closed
+    multigraph-like matrix (parallel edges allowed), every error `v` and EVERY schedule of set iteration orders, the run
     terminates (growth, spanning trees, peeling), raises nothing, stays inside the modelled
     fragment, and returns a binary vector of length `n` whose syndrome is the syndrome of `v`. -/
-theorem decodeWith_total {H : Mat} (hC : closedGraph H = true) (v : Vec) (hv : v.length = ncols H)
+theorem decodeWith_total {H : Mat} (hC : closedMultigraph H = true) (v : Vec) (hv : v.length = ncols H)
     (sched : List (List Int)) :
     ∃ c, (decodeWith H (sectorSyndrome H v) sched).outcome = .ok c ∧ c.length = ncols H ∧
       (∀ x, x ∈ c → x < 2) ∧ sectorSyndrome H c = sectorSyndrome H v ∧
       (decodeWith H (sectorSyndrome H v) sched).bad = false := by
-  have hG : graphLike H = true := by
-    unfold closedGraph at hC; simp only [Bool.and_eq_true] at hC; exact hC.1
+  have hG : multigraphLike H = true := by
+    unfold closedMultigraph at hC; simp only [Bool.and_eq_true] at hC; exact hC.1
   obtain ⟨hpart, hbad⟩ := decodeWith_partial hG (sectorSyndrome H v) sched
   have hterm := clustering_terminates hC v hv sched
   rcases hpart with hdiv | ⟨c, hc, hlen, hbin, hsyn⟩
